@@ -1216,14 +1216,6 @@ C03.sym_violation = _sym_violation
 # --------------------------------------------------------------------------
 
 def main():
-    # A mutated interpreter can loop while allocating (e.g. `next` cycling on a corrupt struct):
-    # bound the address space of this process and of every vjanet child (inherited).
-    try:
-        import resource
-        lim = int(os.environ.get("C03_AS_LIMIT_GB", "5")) << 30
-        resource.setrlimit(resource.RLIMIT_AS, (lim, lim))
-    except (ImportError, ValueError, OSError):
-        pass
     chk = Check("C03")
     chk.rule("value universe (numbers incl. -0, 2^31 and 2^53 neighbourhoods, infinities; byte strings as string/"
              "symbol/keyword incl. hash-colliding ones; nested tuples of both bracket kinds; structs incl. prototypes "
@@ -1246,22 +1238,32 @@ def main():
     def want(p):
         return only is None or only == p
 
+    import time as _time
+
+    def timed(name, fn, *a):
+        t = _time.time()
+        r = fn(*a)
+        chk.part("timing", **{name + "_s": round(_time.time() - t, 1)})
+        return r
+
     classes = None
-    if want("universe") or want("triples"):
-        classes = part_universe(c) if want("universe") else [members_of(v, extra=e) for v, e in universe(chk.tier)]
+    if want("universe"):
+        classes = timed("universe", part_universe, c)
+    elif want("triples"):
+        classes = [members_of(v, extra=e) for v, e in universe(chk.tier)]
     if want("triples"):
-        part_triples(c, classes)
+        timed("triples", part_triples, c, classes)
     sets = None
     if want("struct-perms") or want("struct-dups"):
         sets, H = choose_key_sets(c, 6 if chk.quick else 7)
     if want("struct-perms"):
-        part_struct_perms(c, sets)
+        timed("struct_perms", part_struct_perms, c, sets)
     if want("struct-dups"):
-        part_struct_dups(c, sets)
+        timed("struct_dups", part_struct_dups, c, sets)
     if want("tuples"):
-        part_tuples(c)
+        timed("tuples", part_tuples, c)
     if want("symbols"):
-        part_symbols(c)
+        timed("symbols", part_symbols, c)
     chk.cov["bound_completed"] = ("universe all pairs; struct key subsets <= %d keys all orders; dup sequences <= %d; "
                                   "tuples depth 2; symbol histories depth %s" % (
                                       5 if chk.quick else 6, 4 if chk.quick else 5,
